@@ -3,13 +3,13 @@ CONSTANTS
  Known <- KnownTk
  NP = 2
  Groups <- TwoGroups
- Apis <- AllApis
- MaxItems = 2
- MaxReq = 1
- MaxEnv = 1
- Leasing = FALSE
- AutoSet <- BothAuto
- RichPerms = TRUE
+ Apis <- ProduceOnly
+ MaxItems = 1
+ MaxReq = 2
+ MaxEnv = 2
+ Leasing = TRUE
+ AutoSet <- AutoOn
+ RichPerms = FALSE
  FixMetaAcl = TRUE
  DevNoAclOn <- NoApis
  DevGateAfterAppend = "none"
@@ -17,12 +17,12 @@ CONSTANTS
  DevFetchAclOnRequestName = FALSE
  DevStaleOwnedOnSessionReplace = FALSE
  DevLeaseErrMisindexed = FALSE
- MidOn = FALSE
+ MidOn = TRUE
  DevAclCacheNoAction = FALSE
  DevLateAcquireAfterRelease = FALSE
  DevReacquireUnconditional = FALSE
 INIT Init
 NEXT Next
-INVARIANTS C24_NoEffect C24_AuthError C24_NoLeak C19_AckOnlyIfHeld C19_NoWriteUnlessHeld C19_RefusalCode C19_NotLeaderForOtherOwner OwnsImpliesKey KnownHavePartitions Exclusive
+INVARIANTS C19_AckOnlyIfHeld C19_NoWriteUnlessHeld C19_RefusalCode C19_NotLeaderForOtherOwner OwnsImpliesKey KnownHavePartitions Exclusive
 VIEW View
 CHECK_DEADLOCK FALSE
